@@ -30,6 +30,8 @@ import (
 	"github.com/oklog/ulid/v2"
 	"github.com/prometheus/client_golang/prometheus"
 	"github.com/prometheus/client_golang/prometheus/promauto"
+
+	"github.com/prometheus/alertmanager/pkg/verifhook"
 )
 
 // ClusterPeer represents a single Peer in a gossip cluster.
@@ -254,6 +256,9 @@ func Create(
 		}
 	}
 
+	if t, ok := verifhook.Get("cluster.transport", name).(memberlist.Transport); ok {
+		cfg.Transport = t
+	}
 	ml, err := memberlist.Create(cfg)
 	if err != nil {
 		return nil, fmt.Errorf("create memberlist: %w", err)
